@@ -103,6 +103,7 @@ type Wire struct {
 	OnProbe   func(v pkt.View)
 	ownerless []byte
 	FloodArrived, FloodDelivered int
+	Millis bool
 }
 
 type flowState struct {
@@ -126,7 +127,14 @@ func goid() uint64 {
 	return id
 }
 
-func (w *Wire) nowUs() int64 { return time.Since(w.start).Microseconds() }
+// nowUs is the scenario clock of the trace: microseconds, or milliseconds when Millis is set (scenarios that span hours:
+// TLC integers are 32 bit).
+func (w *Wire) nowUs() int64 {
+	if w.Millis {
+		return time.Since(w.start).Milliseconds()
+	}
+	return time.Since(w.start).Microseconds()
+}
 
 // Log appends an event (caller must hold w.mu unless locked=false).
 func (w *Wire) log(ev string, kv ...any) {
